@@ -145,7 +145,7 @@ def enum_cases(chunk):
 
 
 SUBS = [
-    Sub("spike_model", lambda tier: gen.with_carrier(spike_case(tier)), check_spike, quick=4000, thorough=80000),
+    Sub("spike_model", lambda tier: gen.with_carrier(spike_case(tier)), check_spike, quick=8000, thorough=80000),
     Sub("spike_badmethod", badmethod_case, check_badmethod, quick=300, thorough=3000, quick_shards=1),
 ]
 ENUMS = [
